@@ -5,6 +5,7 @@ pub mod c03;
 pub mod c04;
 pub mod c05;
 pub mod c06;
+pub mod c07;
 pub mod c08;
 pub mod c09;
 pub mod c10;
@@ -22,7 +23,7 @@ pub mod c20;
 use crate::engine::{Property, Tier};
 
 pub const ALL: &[&str] = &[
-    "C01", "C02", "C03", "C04", "C05", "C06", "C08", "C09", "C10", "C11", "C12", "C13", "C14", "C15", "C16", "C17", "C18", "C19", "C20",
+    "C01", "C02", "C03", "C04", "C05", "C06", "C07", "C08", "C09", "C10", "C11", "C12", "C13", "C14", "C15", "C16", "C17", "C18", "C19", "C20",
 ];
 
 pub fn property(id: &str, tier: Tier) -> Option<Property> {
@@ -33,6 +34,7 @@ pub fn property(id: &str, tier: Tier) -> Option<Property> {
         "C04" => c04::property(tier),
         "C05" => c05::property(tier),
         "C06" => c06::property(tier),
+        "C07" => c07::property(tier),
         "C08" => c08::property(tier),
         "C09" => c09::property(tier),
         "C10" => c10::property(tier),
